@@ -1,7 +1,7 @@
 package main
 
 import (
-	"fmt"
+	"strconv"
 	"strings"
 )
 
@@ -28,10 +28,21 @@ func mkBool(b bool) *Term {
 	return tFalse
 }
 
+var smallInts [1024]*Term
+
+func init() {
+	for i := range smallInts {
+		smallInts[i] = &Term{s: strconv.Itoa(i), konst: true, iv: int64(i)}
+	}
+}
+
 func mkInt(i int64) *Term {
-	s := fmt.Sprint(i)
+	if i >= 0 && i < int64(len(smallInts)) {
+		return smallInts[i]
+	}
+	s := strconv.FormatInt(i, 10)
 	if i < 0 {
-		s = fmt.Sprintf("(- %d)", -i)
+		s = "(- " + strconv.FormatInt(-i, 10) + ")"
 	}
 	return &Term{s: s, konst: true, iv: i}
 }
